@@ -175,6 +175,10 @@ SPEC = [
     ('param_defaults', 'eudoxia/simulator.py', [(None, 'get_param_defaults')], (), False),
     ('sched_registry', 'eudoxia/scheduler/decorators.py',
      [(None, 'register_scheduler_init'), (None, 'register_scheduler')], (), True),
+    ('cli_run', 'eudoxia/__main__.py', [(None, 'run_command'), (None, 'gentrace_command')], (), False),
+    ('sched_wrapper', 'eudoxia/scheduler/scheduler.py', [('Scheduler', '__init__'), ('Scheduler', 'run_one_tick')],
+     (), False),
+    ('waiting_queue', 'eudoxia/scheduler/waiting_queue.py', [('WaitingQueueJob', '__init__')], ('RetryStats',), False),
     ('workload_gen', 'eudoxia/workload/workload.py',
      [('WorkloadGenerator', n) for n in ('__init__', 'generate_query_segment', 'generate_segment_not_heavy_io',
                                          'generate_segment', 'generate_segment_from_val', 'generate_pipelines',
